@@ -548,7 +548,7 @@ func ratPow2(k int) *big.Rat {
 
 var rat2p53 = ratPow2(53)
 
-const maxScale = 80
+const maxScale = 1100
 
 // LatticeVar is an integer-valued float64 input in [-2^k, 2^k].
 func (s *Store) LatticeVar(name string, k int) *Term {
@@ -618,6 +618,17 @@ func checkExact(lo, hi *big.Rat, sc int) bool {
 // RealArith builds x op y in the exact domain; ok=false means the result is
 // not provably exact and the caller must fall back to an inexact value.
 func (s *Store) RealArith(op string, a, b *Term) (*Term, bool) {
+	// distribute over ite trees with constant leaves (tables such as ulpSize)
+	if (op == "*" || op == "/") && b.Op == "realconst" && a.Op == "ite" && IteConstLeaves(a) {
+		x, ok1 := s.RealArith(op, a.Args[1], b)
+		y, ok2 := s.RealArith(op, a.Args[2], b)
+		if ok1 && ok2 {
+			return s.Ite(a.Args[0], x, y), true
+		}
+	}
+	if op == "*" && a.Op == "realconst" && b.Op == "ite" && IteConstLeaves(b) {
+		return s.RealArith(op, b, a)
+	}
 	ai, bi := a.ri, b.ri
 	if ai == nil || bi == nil || !ai.exact || !bi.exact || ai.lo == nil || bi.lo == nil {
 		return nil, false
@@ -686,6 +697,17 @@ func (s *Store) RealArith(op string, a, b *Term) (*Term, bool) {
 		}
 	}
 	return t, true
+}
+
+// IteConstLeaves: t is a tree of ite nodes whose leaves are real constants.
+func IteConstLeaves(t *Term) bool {
+	switch t.Op {
+	case "realconst":
+		return true
+	case "ite":
+		return IteConstLeaves(t.Args[1]) && IteConstLeaves(t.Args[2])
+	}
+	return false
 }
 
 // ratLog2 returns k with r == 2^k.
